@@ -47,6 +47,7 @@ import (
 	"time"
 	"unicode/utf8"
 
+	"github.com/ARM-software/golang-utils/utils/charset"
 	"github.com/ARM-software/golang-utils/utils/commonerrors"
 	"github.com/ARM-software/golang-utils/utils/filesystem"
 	"github.com/spf13/afero"
@@ -765,6 +766,10 @@ type sample struct {
 
 type shardResult struct {
 	Evaluations     int64               `json:"evaluations"`
+	Executions      int64               `json:"executions"`
+	CasesWithTies   int64               `json:"cases_with_ties"`
+	TiedDetections  int64               `json:"tied_detections"`
+	Capped          int64               `json:"capped"`
 	Nontrivial      int64               `json:"nontrivial"`
 	PerBlock        map[string]int64    `json:"per_block"`
 	Outcomes        map[string]int64    `json:"outcomes"`
@@ -812,61 +817,86 @@ func worker(shard, n int) shardResult {
 		return out
 	}
 	defer sb.close()
+	// the build must contain the instrumented charset detection (checks/c02/prebuild.sh), else ties cannot be enumerated
+	setChoices(nil)
+	_, _, _ = charset.DetectTextEncoding([]byte("a\xe9"))
+	if len(tieSizes()) != 1 {
+		fail("the test binary was built without the C02 overlay (checks/c02/prebuild.sh): charset ties cannot be controlled")
+		return out
+	}
 	blocks, _ := space(ev.Thorough())
 	var base int64
 	for _, b := range blocks {
 		b.each(base, shard, n, func(c *caseSpec) {
-			res, eerr := sb.runCase(c)
+			caseSigs := map[string]bool{}
+			execs, capped, eerr := sb.explore(c, func(cc *caseSpec, res *caseResult) {
+				if os.Getenv("VERIF_C02_DEBUG") == res.ErrKind {
+					fmt.Printf("DEBUG %s %s shape=%s dest=%q backend=%s limits=%s outer=%q choices=%v: %s\n", cc.Block, cc.NameQuoted, cc.Shape, cc.Dest, cc.Backend, cc.Limits, cc.Outer, cc.Choices, res.Err)
+				}
+				out.Outcomes[res.outcome]++
+				out.ErrKinds[res.ErrKind]++
+				out.AttemptsOutside += res.attempts
+				if res.silent {
+					out.SilentOutside++
+				}
+				if res.transc {
+					out.Transcoded++
+				}
+				if res.wrote {
+					out.Wrote++
+				}
+				for _, n := range res.ties {
+					if n > 1 {
+						out.TiedDetections++
+					}
+				}
+				for _, sig := range res.Sigs {
+					v := out.Viol[sig]
+					if v == nil {
+						// a violation is believed only if 4 further executions of the same case give the identical result
+						for k := 0; k < 4; k++ {
+							again, e2 := sb.runCase(cc)
+							if e2 != nil || !sameResult(res, &again) {
+								fail("case %d: violation %s did not reproduce identically on re-execution %d (%v)", cc.Index, sig, k+1, e2)
+							}
+						}
+						v = &violRec{Index: cc.Index, Replay: replayObject(cc, res)}
+						out.Viol[sig] = v
+					}
+					if !caseSigs[sig] { // counted once per case, however many tie resolutions show it
+						caseSigs[sig] = true
+						v.Count++
+					}
+				}
+				if cc.Index%50021 == 11 || (len(res.Sigs) > 0 && len(out.Samples) < 3) {
+					if len(out.Samples) < 40 {
+						var ops []string
+						for _, o := range res.Ops {
+							ops = append(ops, fmt.Sprintf("%s(%q) err=%q", o.Kind, o.Path, o.Err))
+						}
+						out.Samples = append(out.Samples, sample{Index: cc.Index, Case: *cc, ErrKind: res.ErrKind, Ops: ops})
+					}
+				}
+			})
 			if eerr != nil {
+				c.fill()
 				fail("case %d (%s %s): %v", c.Index, c.Block, c.NameQuoted, eerr)
 				return
 			}
-			if os.Getenv("VERIF_C02_DEBUG") == res.ErrKind {
-				fmt.Printf("DEBUG %s %s shape=%s dest=%q backend=%s limits=%s outer=%q: %s\n", c.Block, c.NameQuoted, c.Shape, c.Dest, c.Backend, c.Limits, c.Outer, res.Err)
-			}
 			out.Evaluations++
+			out.Executions += int64(execs)
+			if execs > 1 {
+				out.CasesWithTies++
+			}
+			if capped {
+				out.Capped++
+			}
 			out.PerBlock[b.id]++
 			if nontrivial(c.name) {
 				out.Nontrivial++
 			}
-			out.Outcomes[res.outcome]++
-			out.ErrKinds[res.ErrKind]++
-			out.AttemptsOutside += res.attempts
-			if res.silent {
-				out.SilentOutside++
-			}
-			if res.transc {
-				out.Transcoded++
-			}
-			if res.wrote {
-				out.Wrote++
-			}
-			if res.refOut {
+			if c.rawResolvesOutside(sb.base) {
 				out.RefOutside++
-			}
-			for _, sig := range res.Sigs {
-				v := out.Viol[sig]
-				if v == nil {
-					// a violation is believed only if 4 further executions of the same case give the identical result
-					for k := 0; k < 4; k++ {
-						again, e2 := sb.runCase(c)
-						if e2 != nil || !sameResult(&res, &again) {
-							fail("case %d: violation %s did not reproduce identically on re-execution %d (%v)", c.Index, sig, k+1, e2)
-						}
-					}
-					v = &violRec{Index: c.Index, Replay: replayObject(c, &res)}
-					out.Viol[sig] = v
-				}
-				v.Count++
-			}
-			if c.Index%50021 == 11 || (len(res.Sigs) > 0 && len(out.Samples) < 3) {
-				if len(out.Samples) < 40 {
-					var ops []string
-					for _, o := range res.Ops {
-						ops = append(ops, fmt.Sprintf("%s(%q) err=%q", o.Kind, o.Path, o.Err))
-					}
-					out.Samples = append(out.Samples, sample{Index: c.Index, Case: *c, ErrKind: res.ErrKind, Ops: ops})
-				}
 			}
 		})
 		base += b.size()
@@ -906,6 +936,10 @@ func TestC02(t *testing.T) {
 	total := shardResult{PerBlock: map[string]int64{}, Outcomes: map[string]int64{}, ErrKinds: map[string]int64{}, Viol: map[string]*violRec{}}
 	for _, r := range results {
 		total.Evaluations += r.Evaluations
+		total.Executions += r.Executions
+		total.CasesWithTies += r.CasesWithTies
+		total.TiedDetections += r.TiedDetections
+		total.Capped += r.Capped
 		total.Nontrivial += r.Nontrivial
 		total.Transcoded += r.Transcoded
 		total.Wrote += r.Wrote
@@ -974,7 +1008,12 @@ func TestC02(t *testing.T) {
 	rep.Coverage["evaluations"] = total.Evaluations
 	rep.Coverage["distinct_nontrivial"] = total.Nontrivial
 	rep.Coverage["rule"] = "a case (all cases are pairwise distinct by construction) whose entry name is not valid UTF-8 or differs from its cleaned form (filepath.Clean), i.e. a name on which the sanitisation / transcoding has something to do"
-	rep.Coverage["exhaustive"] = total.Evaluations == expected
+	rep.Coverage["exhaustive"] = total.Evaluations == expected && total.Capped == 0
+	rep.Coverage["executions"] = total.Executions
+	rep.Coverage["cases_with_charset_ties"] = total.CasesWithTies
+	rep.Coverage["charset_detections_with_a_tie"] = total.TiedDetections
+	rep.Coverage["cases_capped"] = total.Capped
+	rep.Coverage["explanation"] = "evaluations = cases; executions = runs of the real Unzip: a case is run once per resolution of the charset-detector ties met on its way (the detector's choice among equally confident charsets depends on the goroutine schedule in the repository; here the harness makes every choice in turn). Outcome / error-kind counts are per execution, violation counts per case."
 	rep.Coverage["bound"] = map[string]any{
 		"tokens_main_alphabet": tokenList(tokensT), "tokens_deep_alphabet": tokenList(tokensDeep), "limits": bd, "cases_per_block": blockSizes,
 		"blocks": "see the comment of space() in checks/c02/space.go: every block is a full product of the dimensions it lists",
@@ -1032,6 +1071,14 @@ func replay(t *testing.T, path string) {
 		t.Fatal(err)
 	}
 	defer sb.close()
+	setChoices(nil)
+	_, _, _ = charset.DetectTextEncoding([]byte("a\xe9"))
+	if len(tieSizes()) != 1 {
+		fmt.Println("ENGINE-ERROR: property=C02 the test binary was built without the C02 overlay (checks/c02/prebuild.sh)")
+		ev.ExitCode = 2
+		return
+	}
+	// the stored execution (its charset choices included), five times
 	var first caseResult
 	for k := 0; k < 5; k++ {
 		res, eerr := sb.runCase(&c)
@@ -1042,23 +1089,43 @@ func replay(t *testing.T, path string) {
 		}
 		if k == 0 {
 			first = res
-			fmt.Printf("case: block=%s name=%s shape=%s outer=%q dest=%q dest_exists=%v backend=%s limits=%s\n", c.Block, c.NameQuoted, c.Shape, c.Outer, c.Dest, c.DestExists, c.Backend, c.Limits)
-			fmt.Printf("result: %s %s\n", res.ErrKind, res.Err)
-			for _, o := range res.Ops {
-				fmt.Printf("  %s(%q) err=%q\n", o.Kind, o.Path, o.Err)
-			}
 		} else if !sameResult(&first, &res) {
 			fmt.Printf("ENGINE-ERROR: property=C02 replay %d differs from replay 1\n", k+1)
 			ev.ExitCode = 2
 			return
 		}
 	}
-	if len(first.Sigs) == 0 {
-		fmt.Println("replay: no violation (5 identical executions)")
+	// then every resolution of the charset ties of the same case
+	sigs := map[string]string{}
+	c.Choices = nil
+	_, _, eerr := sb.explore(&c, func(cc *caseSpec, res *caseResult) {
+		fmt.Printf("case: block=%s name=%s shape=%s outer=%q dest=%q dest_exists=%v backend=%s limits=%s charset_choices=%v (tie sizes met: %v)\n", cc.Block, cc.NameQuoted, cc.Shape, cc.Outer, cc.Dest, cc.DestExists, cc.Backend, cc.Limits, cc.Choices, res.ties)
+		fmt.Printf("  result: %s %s\n", res.ErrKind, res.Err)
+		for _, o := range res.Ops {
+			fmt.Printf("    %s(%q) err=%q\n", o.Kind, o.Path, o.Err)
+		}
+		for i, sig := range res.Sigs {
+			if _, ok := sigs[sig]; !ok {
+				sigs[sig] = res.Details[i]
+			}
+		}
+	})
+	if eerr != nil {
+		fmt.Printf("ENGINE-ERROR: property=C02 %v\n", eerr)
+		ev.ExitCode = 2
 		return
 	}
-	for i, sig := range first.Sigs {
-		fmt.Printf("VIOLATION property=C02 replay=%s signature=%s\n  %s\n", path, sig, first.Details[i])
+	if len(sigs) == 0 {
+		fmt.Println("replay: no violation (5 identical executions of the stored one, and every charset-tie resolution of the case)")
+		return
+	}
+	var keys []string
+	for k := range sigs {
+		keys = append(keys, k)
+	}
+	sort.Strings(keys)
+	for _, sig := range keys {
+		fmt.Printf("VIOLATION property=C02 replay=%s signature=%s\n  %s\n", path, sig, sigs[sig])
 	}
 	ev.ExitCode = 1
 }
